@@ -377,7 +377,9 @@ def lstrip_namespace(s, namespaces):
     :rtype: ```AnyStr```
     """
     for namespace in namespaces:
-        s = s.lstrip(namespace)
+        # A prefix, not a set of characters: `"int".lstrip("typings.")` is the empty string
+        while namespace and s.startswith(namespace):
+            s = s[len(namespace) :]
     return s
 
 
